@@ -31,6 +31,7 @@ type vmOutcome struct {
 	Pops   *core.Lin
 	Pushes *core.Lin
 	Jump   bool   // vm.ip assigned on this path (jump taken)
+	Back   bool   // the ip assignment subtracts the operand (backward jump)
 	End    string // "" fall through, "ret" returns nil (leaves eval)
 	Facts  []opndFact
 	Notes  []string
@@ -45,7 +46,7 @@ func (o vmOutcome) key() string {
 		}
 		fs = append(fs, fmt.Sprintf("opnd%d%s%d", f.Opnd, op, f.K))
 	}
-	return fmt.Sprintf("fetch=%d pops=%s pushes=%s jump=%v end=%s facts=%s notes=%s", o.Fetch, o.Pops, o.Pushes, o.Jump, o.End, strings.Join(fs, "&"), strings.Join(o.Notes, ","))
+	return fmt.Sprintf("fetch=%d pops=%s pushes=%s jump=%v back=%v end=%s facts=%s notes=%s", o.Fetch, o.Pops, o.Pushes, o.Jump, o.Back, o.End, strings.Join(fs, "&"), strings.Join(o.Notes, ","))
 }
 
 // Net effect of an outcome.
@@ -76,12 +77,13 @@ type vmSt struct {
 	facts      []opndFact
 	end        string // "", "err", "ret", "break", "continue"
 	jump       bool
+	back       bool
 	notes      []string
 	problems   []string
 }
 
 func (s *vmSt) clone() *vmSt {
-	n := &vmSt{fetch: s.fetch, pops: s.pops.Clone(), push: s.push.Clone(), env: map[types.Object]*core.Lin{}, lens: map[types.Object]*core.Lin{}, end: s.end, jump: s.jump}
+	n := &vmSt{fetch: s.fetch, pops: s.pops.Clone(), push: s.push.Clone(), env: map[types.Object]*core.Lin{}, lens: map[types.Object]*core.Lin{}, end: s.end, jump: s.jump, back: s.back}
 	for k, v := range s.env {
 		n.env[k] = v
 	}
@@ -239,7 +241,7 @@ func VMTable(p *core.Program) *vmTable {
 				if end == "break" || end == "continue" {
 					end = ""
 				}
-				vo := vmOutcome{Fetch: o.fetch, Pops: o.pops, Pushes: o.push, Jump: o.jump, End: end, Facts: o.facts, Notes: o.notes}
+				vo := vmOutcome{Fetch: o.fetch, Pops: o.pops, Pushes: o.push, Jump: o.jump, Back: o.back, End: end, Facts: o.facts, Notes: o.notes}
 				if !seen[vo.key()] {
 					seen[vo.key()] = true
 					c.Outcomes = append(c.Outcomes, vo)
@@ -324,6 +326,9 @@ func (a *vmAn) expr(e ast.Node, st *vmSt) {
 							if sm.Net.K != 0 {
 								st.notes = append(st.notes, fmt.Sprintf("%s:%+d on success", cal.Name(), sm.Net.K))
 							}
+						} else if len(sm.Net.T) == 1 && sm.Net.K == 0 && sm.Net.T["?rec:"+cal.Name()] == 1 {
+							// coinductive self-call: effect is the summary being computed
+							st.push = st.push.Add(sm.Net)
 						} else {
 							st.problems = append(st.problems, "call to "+cal.Name()+" has a non-constant effect "+sm.Net.String())
 						}
@@ -379,6 +384,8 @@ func (a *vmAn) summary(m *types.Func) *methodSummary {
 	var net *core.Lin
 	ok := true
 	why := ""
+	var recNets []*core.Lin
+	recSym := "?rec:" + m.Name()
 	for _, o := range outs {
 		if len(o.problems) > 0 {
 			ok, why = false, strings.Join(o.problems, "; ")
@@ -390,31 +397,27 @@ func (a *vmAn) summary(m *types.Func) *methodSummary {
 			ok, why = false, "fetches operands"
 		}
 		n := o.push.Sub(o.pops)
-		// resolve the coinductive symbol: n = k + c*?rec  → accept if consistent with ?rec = k'
+		if _, rec := n.T[recSym]; rec {
+			recNets = append(recNets, n)
+			continue
+		}
 		if net == nil {
 			net = n
 		} else if !net.Sub(n).IsZero() {
-			// try ?rec substitution
-			sub := core.Subst{}
-			if !sub.Unify(net, n) {
-				ok, why = false, fmt.Sprintf("success paths disagree: %s vs %s", net, n)
-			} else {
-				net = sub.Apply(net)
-			}
+			ok, why = false, fmt.Sprintf("success paths disagree: %s vs %s", net, n)
 		}
 	}
 	if net == nil {
+		if len(recNets) > 0 {
+			ok, why = false, "only recursive success paths"
+		}
 		net = core.Const(0)
 	}
-	// eliminate remaining ?rec symbols: net = k + c*?rec with ?rec := net  → only consistent if c==0 or trivially
-	for k, cf := range net.T {
-		if strings.HasPrefix(k, "?rec:") {
-			// net = K + cf*X, X = net ⇒ X(1-cf) = K; for cf == 1 ⇒ K must be 0: underdetermined
-			if cf == 1 && net.K == 0 {
-				ok, why = false, "recursive arm underdetermined"
-			} else {
-				ok, why = false, "recursive effect not resolvable"
-			}
+	// coinductive arms: with X := net every recursive arm k + c*X must equal net
+	for _, rn := range recNets {
+		sub := core.Subst{recSym: net}
+		if !sub.Apply(rn).Sub(net).IsZero() {
+			ok, why = false, fmt.Sprintf("recursive arm %s is inconsistent with the effect %s of the other arms", rn, net)
 		}
 	}
 	s := &methodSummary{OK: ok, Net: net, Why: why}
@@ -608,6 +611,16 @@ func (a *vmAn) stmt(s ast.Stmt, st *vmSt) []*vmSt {
 			}
 			if fieldOf(a.info, l) == a.ipField {
 				st.jump = true
+				if s.Tok == token.SUB_ASSIGN {
+					st.back = true
+				}
+				if len(s.Rhs) == 1 {
+					if be, ok := ast.Unparen(s.Rhs[0]).(*ast.BinaryExpr); ok && be.Op == token.SUB {
+						if v := a.intVal(be.Y, st); v != nil && !v.IsConst() {
+							st.back = true
+						}
+					}
+				}
 			}
 			if fieldOf(a.info, l) == a.spField {
 				st.problems = append(st.problems, "handler assigns sp directly at "+a.p.Pos(s.Pos()))
@@ -914,4 +927,40 @@ func (a *vmAn) forLoop(s *ast.ForStmt, st *vmSt) []*vmSt {
 	}
 	st.problems = append(st.problems, "unsupported loop form with stack effects at "+a.p.Pos(s.Pos()))
 	return []*vmSt{st}
+}
+
+// jumpBackward: some outcome of the opcode's handler jumps backwards.
+func (t *vmTable) jumpBackward(name string) bool {
+	cl := t.Clauses[name]
+	if cl == nil {
+		return false
+	}
+	for _, o := range cl.Outcomes {
+		if o.Back {
+			return true
+		}
+	}
+	return false
+}
+
+// declaredVMEffects: handlers whose behaviour is data-dependent and whose
+// effect is declared (trusted, listed in the evidence) instead of derived.
+//   Unpack:      pops the container, pushes exactly operand0 values (the
+//                handler compares the container size with operand0 before its
+//                iterator loop; the loop pushes one value per element)
+//   ReturnValue: leaves the frame (resumeFrame resets sp to the caller's
+//                height plus the result); nothing after it in the same block
+//                is reachable from it
+type declaredEffect struct {
+	Net    *core.Lin
+	End    string
+	Reason string
+	// Expect: substrings that the derivation's own problem list must contain,
+	// so that the declaration is only used for the reason it was written for.
+	Expect string
+}
+
+var declaredVMEffects = map[string]declaredEffect{
+	"Unpack":      {Net: core.Sym("opnd0").AddK(-1), End: "", Reason: "data-dependent iterator loop guarded by a size check against operand 0", Expect: "data-dependent loop"},
+	"ReturnValue": {Net: core.Const(0), End: "ret", Reason: "returns to the caller's frame via resumeFrame", Expect: "resumeFrame"},
 }
